@@ -49,6 +49,7 @@ Rec(ev, args) == [ev |-> ev, args |-> args]
 
 \* server frame with the canonical split of mutate messages
 FrameR(s, doTick, dt) == SrvFrameR(s, doTick, dt, <<>>, Graphs)
+FrameRV(s, doTick, dt, visible) == SrvFrameRV(s, doTick, dt, <<>>, Graphs, visible)
 Frame(s, doTick, dt) == Then(FrameR(s, doTick, dt), LAMBDA r : r.st)
 
 Init0 ==
@@ -116,7 +117,9 @@ SrvFrame(doTick, dt) ==
     /\ IF doTick THEN b.ticks < MaxTicks /\ b' = [b EXCEPT !.ticks = @ + 1]
                  ELSE b.idle < MaxIdle /\ b' = [b EXCEPT !.idle = @ + 1]
     /\ dt > 0 => "timeout" \in OpKinds
-    /\ \E r \in {FrameR(st, doTick, dt)} :
+    \* the scheduler's choice about a pending reset (see ResolveReset) is explored both ways
+    /\ \E vis \in (IF st.srv.tickMaybe /\ st.srv.running THEN BOOLEAN ELSE {TRUE}) :
+       \E r \in {FrameRV(st, doTick, dt, vis)} :
           /\ st' = r.st
           /\ g' = IF r.ran THEN GhostSnap(GhostMaps(g, st, r.st), r.st) ELSE g
     /\ Log("SrvFrame", [tick |-> doTick, dt |-> dt])
